@@ -78,6 +78,40 @@ FIXED = {
         {"k": "out", "e": {"k": "call", "f": "keep", "a": [ID("named")]}},
         {"k": "expr", "e": {"k": "int", "v": 0}}],
 }
+# the variable of a ranged for is a fresh binding per iteration: a closure that captured it keeps ITS element, read and written
+_I = lambda v: {"k": "int", "v": v}
+_lam = lambda caps, body: {"k": "lambda", "caps": caps, "params": [{"n": "q", "ty": ""}], "b": body}
+_call = lambda f, *a: {"k": "call", "f": f, "a": list(a)}
+_add = lambda l, r: {"k": "bin", "op": "+", "l": l, "r": r}
+_if = lambda c, t: {"k": "if", "c": c, "t": t, "ei": [], "haselse": False, "f": []}
+FIXED["fixed:ranged-for-variable-captured-read"] = [
+    {"k": "var", "n": "g", "e": _lam([], [{"k": "expr", "e": ID("q")}])},
+    {"k": "var", "n": "first", "e": {"k": "bool", "v": True}},
+    {"k": "rfor", "n": "x", "e": {"k": "vec", "a": [_I(7), _I(8), _I(9)]},
+     "b": [_if(ID("first"), [{"k": "asg", "l": ID("g"), "e": _lam(["x"], [{"k": "expr", "e": _add(ID("x"), ID("q"))}])},
+                             {"k": "asg", "l": ID("first"), "e": {"k": "bool", "v": False}}]),
+           {"k": "out", "e": _call("g", _I(0))}]},
+    {"k": "out", "e": _call("g", _I(100))},
+    {"k": "expr", "e": _I(0)}]
+FIXED["fixed:ranged-for-variable-captured-write"] = [
+    {"k": "var", "n": "v", "e": {"k": "vec", "a": [_I(1), _I(2), _I(3)]}},
+    {"k": "var", "n": "g", "e": _lam([], [{"k": "expr", "e": ID("q")}])},
+    {"k": "var", "n": "n", "e": _I(0)},
+    {"k": "rfor", "n": "x", "e": ID("v"),
+     "b": [_if({"k": "bin", "op": "==", "l": ID("n"), "r": _I(0)}, [{"k": "asg", "l": ID("g"), "e": _lam(["x"], [{"k": "asg", "l": ID("x"), "e": ID("q")}, {"k": "expr", "e": ID("x")}])}]),
+           {"k": "asg", "l": ID("n"), "e": _add(ID("n"), _I(1))}]},
+    {"k": "out", "e": _call("g", _I(100))},
+    {"k": "out", "e": ID("v")},
+    {"k": "expr", "e": _I(0)}]
+FIXED["fixed:ranged-for-variable-captured-middle"] = [
+    {"k": "var", "n": "g", "e": _lam([], [{"k": "expr", "e": ID("q")}])},
+    {"k": "var", "n": "n", "e": _I(0)},
+    {"k": "rfor", "n": "x", "e": {"k": "vec", "a": [_I(10), _I(20), _I(30), _I(40)]},
+     "b": [{"k": "asg", "l": ID("n"), "e": _add(ID("n"), _I(1))},
+           _if({"k": "bin", "op": "==", "l": ID("n"), "r": _I(2)}, [{"k": "asg", "l": ID("g"), "e": _lam(["x", "n"], [{"k": "expr", "e": _add(_add(ID("x"), ID("n")), ID("q"))}])}]),
+           {"k": "out", "e": _call("g", _I(0))}]},
+    {"k": "out", "e": _call("g", _I(1000))},
+    {"k": "expr", "e": _I(0)}]
 
 
 def run(ck, tier, seed):
